@@ -175,6 +175,50 @@ def install(H):
 
     ctx.loop_hooks.append(hook)
 
+    # `while` loops: the same rule.  The contract supplies check_init(vars), havoc(vars), check_step(vars) and optionally
+    # at_exit(vars); the real test expression and the real body are executed, nothing is unrolled.
+    ctx.while_contracts = {}
+
+    def whook(interp, node, env):
+        fr = interp.frames[-1]
+        if fr.closure is None:
+            return None
+        q = fr.closure.__qualname__
+        key = (q, loop_ordinal(fr.closure.node, node))
+        wc = ctx.while_contracts.get(key)
+        if wc is None:
+            return None
+
+        def run():
+            phase = ctx.case(f"while[{q}#{key[1]}]", ("init", "step", "exit"))
+            vars_ = env.vars
+            if phase == "init":
+                wc.check_init(vars_)
+                raise StopPath()
+            wc.havoc(vars_)
+            holds = interp.truth(interp.eval(node.test, env))
+            if phase == "step":
+                if not holds:
+                    raise StopPath()  # this state leaves the loop: the exit family
+                try:
+                    interp.exec_block(node.body, env)
+                except _Continue:
+                    pass
+                except _Break:
+                    return
+                wc.check_step(vars_)
+                raise StopPath()
+            if holds:
+                raise StopPath()  # this state stays in the loop: the step family
+            interp.exec_block(node.orelse, env)
+            at_exit = getattr(wc, "at_exit", None)
+            if at_exit is not None:
+                at_exit(vars_)
+
+        return run
+
+    ctx.while_hooks = [whook]
+
     # functools.reduce over an abstract sequence
     import functools
 
